@@ -173,6 +173,12 @@ func (p *printer) noise() {
 			}
 			p.b.WriteString(p.cur() + deeper + "// comment deeper than the block\n")
 			p.lay.note("comment-line-deeper")
+		case 7:
+			p.b.WriteString(" \t \n")
+			p.lay.note("whitespace-only-line-mixed")
+		case 9:
+			p.b.WriteString("\t  // comment after tabs and blanks\n")
+			p.lay.note("comment-line-mixed-indent")
 		case 6:
 			if len(p.indent) >= 2 {
 				p.b.WriteString(p.indent[len(p.indent)-2] + "// comment at the enclosing block's indentation\n")
@@ -504,14 +510,15 @@ type interp struct {
 	idle      int
 	stopAtErr bool
 
-	diverged  bool
-	restored  bool  // classification only
-	startAt   *Node // start node (default: the first node of the first reader)
-	lastStmt  *Stmt // the statement entered most recently (the one a following error belongs to)
-	errNote   string
-	sawRandom bool // a random built-in was evaluated successfully: its value is not modelled
-	jumpTo    *Node
-	leftNodes map[string]bool // nodes left through a jump at least once
+	diverged    bool
+	restored    bool  // classification only
+	startAt     *Node // start node (default: the first node of the first reader)
+	lastStmt    *Stmt // the statement entered most recently (the one a following error belongs to)
+	errNote     string
+	nonJumpErrs int  // errors that do not come from a failing jump
+	sawRandom   bool // a random built-in was evaluated successfully: its value is not modelled
+	jumpTo      *Node
+	leftNodes   map[string]bool // nodes left through a jump at least once
 	// statistics for classification
 	stats flowStats
 	depth int
@@ -604,6 +611,9 @@ func (m *interp) tick() bool {
 
 func (m *interp) fail(err error) sig {
 	m.stats.errs++
+	if m.lastStmt == nil || (m.lastStmt.K != "jump" && m.lastStmt.K != "jumpx") {
+		m.nonJumpErrs++
+	}
 	if m.errNote == "" && m.lastStmt != nil {
 		m.errNote = m.lastStmt.K + ":" + m.lastStmt.Note
 	}
@@ -836,6 +846,9 @@ func (m *interp) stmt(s *Stmt) sig {
 		name := vals[0].S
 		if name == "stop" {
 			return sStop
+		}
+		if name == "wait" && len(vals) == 2 && vals[1].T == 'n' {
+			return sNext // the built-in: completes by itself, invisible in the trace
 		}
 		if !modelCommands[name] {
 			return m.fail(evalErrf("unknown command %q", name))
